@@ -12,6 +12,9 @@
 //	pool <inet|rc> <maxIdle> <it:0|1> op...      it=1: idle timeout 1ns (every pooled connection is stale)
 //	  a<k>[d]      start call k with one request (d: 200 ms deadline)
 //	  b<k>:<n>[d]  start call k with n requests (inet: SendBatchProto, n frames; rc: RemoteBatchAsk, one frame)
+//	  b<k>:<n>c    (inet) batch with a cancellable context; k<k> cancels it: SendBatchProto notices between two reads
+//	  b<k>:<n>x    (inet, n>=2) batch whose context is already cancelled: a pooled connection is taken, the first
+//	               frame written, then the cancellation is noticed between two writes (no pooled connection: dial fails)
 //	  r<k> e<k> n<k>   release the parked request of call k: reply / handler error / no reply
 //	  t            let the deadline of every deadline call in flight expire (their requests stay parked)
 //	  x            Client.Close()   (rc mode: calls started afterwards are ignored, they would use a new pool;
@@ -162,6 +165,11 @@ type call struct {
 	frames   int // request frames on the wire (rc batch: 1)
 	dl       bool
 	batch    bool
+	ctx      context.Context
+	cancel   context.CancelFunc
+	canc     bool // cancellable context
+	pre      bool // cancelled before the call starts
+	cancld   bool
 	served   int
 	starved  bool
 	conn     int
@@ -189,6 +197,9 @@ func (c *ctl) run(cl *call) {
 	cancel := func() {}
 	if cl.dl {
 		ctx, cancel = context.WithTimeout(ctx, deadline)
+	}
+	if cl.ctx != nil {
+		ctx = cl.ctx
 	}
 	defer cancel()
 	ids := make([]string, cl.n)
@@ -294,7 +305,7 @@ func (c *ctl) waitDone(cl *call, max time.Duration) {
 	}
 }
 
-func (c *ctl) start(k, n int, dl, batch bool) {
+func (c *ctl) start(k, n int, dl, batch bool, flag byte) {
 	if _, dup := c.calls[k]; dup {
 		return
 	}
@@ -313,7 +324,21 @@ func (c *ctl) start(k, n int, dl, batch bool) {
 	cl.started = time.Now()
 	c.calls[k] = cl
 	c.order = append(c.order, k)
+	if flag == 'c' || flag == 'x' {
+		cl.canc = true
+		cl.ctx, cl.cancel = context.WithCancel(context.Background())
+		if flag == 'x' {
+			cl.pre, cl.cancld = true, true
+			cl.cancel()
+		}
+	}
 	go c.run(cl)
+	if cl.pre {
+		// the call ends by itself (dial error, or cancellation noticed after the first frame); the frame it
+		// may have written surfaces at the server later and is answered during clean-up
+		c.waitDone(cl, longWait)
+		return
+	}
 	c.waitEntered(cl)
 }
 
@@ -340,6 +365,11 @@ func (c *ctl) release(k int, o byte) {
 		return
 	}
 	if cl.served < cl.frames {
+		if cl.cancld && o == '+' {
+			// the response just released is read successfully, then SendBatchProto sees ctx.Done()
+			c.waitDone(cl, longWait)
+			return
+		}
 		c.waitEntered(cl)
 		return
 	}
@@ -421,6 +451,14 @@ func handle(line string) string {
 			body := op[1:]
 			dl := strings.HasSuffix(body, "d")
 			body = strings.TrimSuffix(body, "d")
+			var flag byte
+			if op[0] == 'b' && (strings.HasSuffix(body, "c") || strings.HasSuffix(body, "x")) {
+				flag = body[len(body)-1]
+				body = body[:len(body)-1]
+				if dl || f[1] != "inet" {
+					return "bad-case"
+				}
+			}
 			n := 1
 			if op[0] == 'b' {
 				kv := strings.SplitN(body, ":", 2)
@@ -437,9 +475,24 @@ func handle(line string) string {
 			if err != nil {
 				return "bad-case"
 			}
-			c.start(k, n, dl, op[0] == 'b')
+			if flag == 'x' && n < 2 {
+				return "bad-case"
+			}
+			c.start(k, n, dl, op[0] == 'b', flag)
 		case op == "t":
 			c.expireAll()
+		case op[0] == 'k':
+			k, err := strconv.Atoi(op[1:])
+			if err != nil {
+				return "bad-case"
+			}
+			// honoured only while at least two frames are unanswered: the cancellation is then noticed after the
+			// next (non-final) read whatever the client goroutine's progress; with one frame left it would race
+			// with the client's last between-reads check
+			if cl := c.calls[k]; cl != nil && cl.canc && !cl.cancld && cl.frames-cl.served >= 2 {
+				cl.cancld = true
+				cl.cancel()
+			}
 		case op[0] == 'r' || op[0] == 'e' || op[0] == 'n':
 			k, err := strconv.Atoi(op[1:])
 			if err != nil {
@@ -488,7 +541,7 @@ func handle(line string) string {
 	for _, k := range c.order {
 		cl := c.calls[k]
 		cn := "-"
-		if cl.conn >= 0 {
+		if cl.conn >= 0 && !cl.pre {
 			cn = "c" + strconv.Itoa(cl.conn)
 		}
 		res := cl.res
